@@ -111,6 +111,45 @@ def c04(ctx):
     # 5. signed sub-Manifests inside a tree, read through the recursive loader
     import p_c14
     p_c14.signed_sub_engine(ctx)
+    # 6. verification requested (explicitly or by default) but no OpenPGP environment given: a text with a complete signature
+    #    framework is never loaded successfully - nobody authenticated it
+    no_environment(ctx, r, quick)
+
+
+def no_environment(ctx, r, quick):
+    import tempfile
+    import gemato.manifest as gm
+    import gemato.recursiveloader as rl
+    n = refused = 0
+    with tempfile.TemporaryDirectory(prefix='gv-c04-', dir=os.environ.get('GV_SCRATCH')) as d:
+        for i in range(60 if quick else 600):
+            body = [r.choice(['DATA a 0', '- DATA b 1', 'IGNORE x', 'DATA forged 3 SHA1 00', 'TIMESTAMP 2017-01-01T00:00:00Z']) for _ in range(r.randint(1, 4))]
+            seq = [BEGIN] + ['Hash: SHA256'] * r.randint(0, 1) + [''] + body + [SIGBEGIN] + [r.choice(['', 'iQEzBAEBCgAdFiEE', '=BR6/'])] * r.randint(0, 3) + [END]
+            t = seq_text(seq, True)
+            how = r.choice(['load', 'load-default', 'constructor', 'loader', 'loader-default'])
+            n += 1
+            try:
+                if how in ('load', 'load-default'):
+                    m = gm.ManifestFile()
+                    with impl.text_file(t) as f:
+                        m.load(f, **({'verify_openpgp': True} if how == 'load' else {}))
+                    got = [impl.entry_sx(e) for e in m.entries]
+                elif how == 'constructor':
+                    with impl.text_file(t) as f:
+                        m = gm.ManifestFile(f)
+                    got = [impl.entry_sx(e) for e in m.entries]
+                else:
+                    p = os.path.join(d, 'Manifest')
+                    with open(p, 'w', encoding='utf8', newline='') as f:
+                        f.write(t)
+                    m = rl.ManifestRecursiveLoader(p, **({'verify_openpgp': True} if how == 'loader' else {}))
+                    got = [impl.entry_sx(e) for e in m.loaded_manifests['Manifest'].entries]
+            except Exception:
+                refused += 1
+                continue
+            ctx.violation('spec', f'a Manifest with a signature framework was loaded with verification requested ({how}) and no OpenPGP environment: '
+                          f'{len(got)} entries handed out although nothing was verified', {'text': t, 'how': how, 'entries': got})
+    ctx.count('text:no-environment', n, n, dist={'loads_refused': refused})
 
 
 MUT_LINES = ['', ' ', 'DATA injected 1', BEGIN, SIGBEGIN, END, 'Hash: SHA1', '- DATA esc 2', 'Comment: x', '-----FOO-----']
